@@ -3,7 +3,8 @@ import gen
 
 PID = 'C11'
 RULE = ("2-3 boolean maps (each independently bit-packed or not; coverage relations empty / equal / disjoint / nested / "
-        "partially overlapping; different coverage growth order on each side; some with cov_pixels pre-allocation) are "
+        "partially overlapping; different coverage growth order on each side; some with cov_pixels pre-allocation; in 30% of the histories twins / "
+        "operands are first written to a file and read back) are "
         "combined by chains of 2-6 operators from {&,|,^} x {map, True, False} x {copying, in place} and invert / ~; "
         "each in-place step on twin x is mirrored by the copying form on twin y; after each step dense values, "
         "coverage mask, kind, layout and n_valid of results and operands are compared with the Lean model; "
@@ -55,6 +56,10 @@ def histories(rng, tier):
             fill(rng, c, h, focus)
         # twins x (in place) / y (copying) start as copies of a
         h += ['copy a r=x', 'copy a r=y']
+        if rng.random() < 0.3:
+            # twins (and sometimes an operand) as read back from their own files
+            for nm in rng.sample(['x', 'y'] + names[1:], rng.randint(1, 2)):
+                h += gen.roundtrip_lines(rng, nm, f='f' + nm)
         for _ in range(rng.randint(2, 6)):
             r = rng.random()
             if r < 0.15:
